@@ -68,3 +68,77 @@ def cropOutcome (H : Nat) (inner : Option Nat) : Outcome :=
   | none => .blank H
 
 end Crop
+
+/-! ### `reverse_line_mapping` and the sampling grid of a straight baseline (second part of the C10 model)
+
+`get_crop_inputs` resamples the baseline through `reverse_line_mapping(forward_mapping, sample_positions,
+sampled_values)`.  The loop is modelled literally, including Python's negative indexing (`xs[-1]` is the last
+element), because the code relies on it: `forward_mapping[0] = 0` is never `>` a sample position, so the scan
+never advances and the interpolation runs between index `-1` (the LAST sample) and index `0`. -/
+
+namespace Crop
+
+/-- Python indexing `xs[i]` for `-len ≤ i < len` (`none` = IndexError) -/
+def pyGet (xs : List Rat) (i : Int) : Option Rat :=
+  if 0 ≤ i then xs[i.toNat]?
+  else if 0 ≤ (xs.length : Int) + i then xs[((xs.length : Int) + i).toNat]?
+  else none
+
+/-- `while forward_mapping[forward_position] > sample_positions[i]: forward_position += 1`
+(`none` = IndexError when the scan runs off the end) -/
+def advance (F : List Rat) (t : Rat) : Nat → Nat → Option Nat
+  | 0, _ => none
+  | fuel + 1, pos =>
+    match F[pos]? with
+    | none => none
+    | some f => if f > t then advance F t fuel (pos + 1) else some pos
+
+/-- the loop body for one sample position, starting the scan at `pos`; returns the new `pos` and the value -/
+def reverseStep (F X : List Rat) (pos : Nat) (t : Rat) : Option (Nat × Rat) := do
+  let pos' ← advance F t (F.length + 1) pos
+  let f1 ← pyGet F pos'
+  let f0 ← pyGet F ((pos' : Int) - 1)
+  let x1 ← pyGet X pos'
+  let x0 ← pyGet X ((pos' : Int) - 1)
+  let d := f1 - f0
+  let da := (t - f0) / d
+  some (pos', (1 - da) * x0 + da * x1)
+
+def reverseGo (F X : List Rat) : Nat → List Rat → Option (List Rat)
+  | _, [] => some []
+  | pos, t :: rest =>
+    match reverseStep F X pos t with
+    | none => none
+    | some (pos', v) =>
+      match reverseGo F X pos' rest with
+      | none => none
+      | some r => some (v :: r)
+
+/-- `reverse_line_mapping(forward_mapping, sample_positions, sampled_values)` (`forward_position` persists
+across samples) -/
+def reverseLineMapping (F ts X : List Rat) : Option (List Rat) := reverseGo F X 0 ts
+
+/-- `R = [[c, s], [-s, c]]`, applied to a row vector: `np.dot([x, y], R)` -/
+structure Rot where
+  c : Rat
+  s : Rat
+
+def Rot.apply (r : Rot) (p : Rat × Rat) : Rat × Rat := (p.1 * r.c - p.2 * r.s, p.1 * r.s + p.2 * r.c)
+
+/-- The sampling grid of `get_crop_inputs` for a STRAIGHT baseline, in the frame rotated to the baseline
+(the interpolant is the constant `y0`, so every unit step has length 1 and the normals are `(0, 1)`):
+`left` = first rotated x, `n` = `len(np.arange(left, right))`, `h0 h1` = heights × scale, `H` = target height.
+Row-major: `grid[r][c] = R.apply (x_c, y0 + v_r)`; `none` = an exception inside (blank crop). -/
+def straightGrid (R : Rot) (left y0 : Rat) (n : Nat) (h0 h1 : Rat) (H : Nat) : Option (List (List (Rat × Rat))) :=
+  let xsamples := (List.range n).map fun (i : Nat) => left + (i : Rat)
+  let F := (List.range n).map fun (i : Nat) => ((i : Nat) : Rat)          -- concat([0], cumsum(ones))
+  let L : Rat := ((n : Nat) : Rat) - 1
+  let count := (L * ((H : Nat) : Rat) / (h0 + h1)).floor.toNat
+  let ts := linspace 0 L count
+  match reverseLineMapping F ts xsamples with
+  | none => none
+  | some xs =>
+    let vmap := linspace (-h0) h1 H
+    some (vmap.map fun v => xs.map fun x => R.apply (x, y0 + v))
+
+end Crop
